@@ -56,6 +56,13 @@ CHECKS['C20'] = dict(
          'uq.yaml, must be a non-negative plain float, scale with |k|, not depend on mapping order; out-of-basis descriptors must raise. Exploration.',
     note='Trusted: yaml.safe_load of uq.yaml; the loaded RMSE correlation as the value of RMSE_X(T).',
     ref='DESIGN.md C20')
+CHECKS['C07'] = dict(
+    technique='Hypothesis molecule generators x all gas-constant unit strings; algebraic identities and unit-ratio metamorphic relation; elemental clause against an independent formula-based atom count',
+    text='Estimates for generated molecules (gas, aromatic, radical, Pt/Ru adsorbate families per shipped library, decomposed immediately before Estimate, optionally after another molecule) and every shipped '
+         'group correlation are checked for H=(H/RT)TR, S=(S/R)R, Cp=(Cp/R)R, G=H-TS over the unit strings of the gas-constant table, for the exact ratio between two units, and for '
+         'S/R(T,True)=S/R(T)-sum n_Z S_el[Z] with n_Z parsed from the molecular formula. Exploration.',
+    note='Trusted: pmutt gas-constant and elemental-entropy tables; RDKit CalcMolFormula.',
+    ref='DESIGN.md C07')
 NOT_YET = {}
 
 def main():
